@@ -3,8 +3,8 @@
 //! the oracle checks the property text against the ground truth whenever the stream is inside the
 //! property's domain (markers only at message starts); a second, malformed family only feeds the
 //! model-vs-code comparison (resync logic).
-use adlt::dlt::DltMessage;
-use adlt::utils::DltMessageIterator;
+use adlt::dlt::{DltMessage, DLT_MAX_STORAGE_MSG_SIZE};
+use adlt::utils::{DltMessageIterator, LowMarkBufReader};
 use std::io::Cursor;
 use vharness::*;
 
@@ -206,8 +206,10 @@ pub fn cksum(l: &[u8]) -> u32 {
 pub fn o_bytes(l: &[u8]) -> O {
     if l.len() <= 64 {
         O::T(vec![O::L(0), O::bytes(l)])
-    } else {
+    } else if l.len() <= 4096 {
         O::T(vec![O::L(1), O::n(l.len() as u64), O::n(cksum(l)), O::bytes(&l[..8])])
+    } else {
+        O::T(vec![O::L(2), O::n(l.len() as u64), O::L(cksum2(l)), O::bytes(&l[..8])])
     }
 }
 pub fn o_c4(c: &[u8; 4]) -> O {
@@ -418,7 +420,7 @@ pub fn record(sink: &mut Sink, inp: Input, extra_tags: &[&str]) {
     let r = run_impl(start, &data);
     let (verdict, in_domain) = oracle(&inp, built.as_ref(), data.len(), &r);
     let obs = o_run(&r);
-    let input_coq = format!("({}, {})", start, coq_segs(&segs));
+    let input_coq = format!("(WCursor, {}, {})", start, coq_segs(&segs));
     let mut tags: Vec<String> = extra_tags.iter().map(|s| s.to_string()).collect();
     let mut nontrivial = false;
     match &inp {
@@ -452,6 +454,194 @@ pub fn record(sink: &mut Sink, inp: Input, extra_tags: &[&str]) {
     }
     let id = sink.next_id();
     sink.push(Case { id, key: input_coq.clone(), input_coq, input_json: input_json(&inp), obs, verdict, classes: vec![], tags, nontrivial });
+}
+
+// ------------------------------------------------------------------ the iterator as the crate wires it
+/// capacity used at every DLT call site of the crate (`512 * 1024` / `BUFREADER_CAPACITY`: function-local there,
+/// so it cannot be imported); the low mark is the crate's own expression, never a copied value
+pub const CALL_SITE_CAPACITY: usize = 512 * 1024;
+pub fn call_site_low_mark(look4: bool) -> usize {
+    if look4 {
+        DLT_MAX_STORAGE_MSG_SIZE + 4 // adlt convert, adlt remote
+    } else {
+        DLT_MAX_STORAGE_MSG_SIZE // library tests, export plugin, lifecycle
+    }
+}
+
+/// source that records the absolute stream position of the buffer end after every read
+pub struct CountingSource {
+    pub cur: Cursor<Vec<u8>>,
+    pub ends: std::rc::Rc<std::cell::RefCell<Vec<usize>>>,
+}
+impl std::io::Read for CountingSource {
+    fn read(&mut self, buf: &mut [u8]) -> std::io::Result<usize> {
+        let n = self.cur.read(buf)?;
+        if n > 0 {
+            self.ends.borrow_mut().push(self.cur.position() as usize);
+        }
+        Ok(n)
+    }
+}
+
+/// DltMessageIterator::new(start, LowMarkBufReader::new(src, cap, low)) drained; also the buffer ends seen
+pub fn run_wired(start: u32, data: &[u8], cap: usize, low: usize) -> (Result<Run, String>, Vec<usize>) {
+    let data = data.to_vec();
+    let total = data.len();
+    let ends = std::rc::Rc::new(std::cell::RefCell::new(vec![]));
+    let e2 = ends.clone();
+    let r = catch_loc(std::panic::AssertUnwindSafe(move || {
+        let src = CountingSource { cur: Cursor::new(data), ends: e2 };
+        let mut it = DltMessageIterator::new(start, LowMarkBufReader::new(src, cap, low));
+        let mut items = vec![];
+        for m in &mut it {
+            items.push(item_of(&m));
+        }
+        Run { items, index: it.index, processed: it.bytes_processed, skipped: it.bytes_skipped, det_storage: it.detected_storage_header,
+            det_serial: it.detected_serial_header, rest: total - it.bytes_processed.min(total) }
+    }));
+    let e = ends.borrow().clone();
+    (r, e)
+}
+
+pub fn cksum2(l: &[u8]) -> u128 {
+    let (mut s1, mut s2) = (0u128, 0u128);
+    for b in l {
+        s1 += *b as u128;
+        s2 += s1;
+    }
+    s2 * 4294967296 + s1
+}
+/// one case of the buffered family: an in-domain stream (ground truth `parts`) read the way the crate reads files
+pub fn record_wired(sink: &mut Sink, framing: u8, start: u32, parts: Vec<Part>, look4: bool, extra_tags: &[&str]) {
+    let cap = CALL_SITE_CAPACITY;
+    let low = call_site_low_mark(look4);
+    let inp = Input::Stream { framing, start, parts };
+    let b = match &inp {
+        Input::Stream { framing, parts, .. } => build(*framing, parts),
+        _ => unreachable!(),
+    };
+    let (r, ends) = run_wired(start, &b.data, cap, low);
+    let (verdict, in_domain) = oracle(&inp, Some(&b), b.data.len(), &r);
+    let obs = match &r {
+        Ok(r) => O::T(vec![
+            O::L(0),
+            O::T(r.items.iter().map(o_item).collect()),
+            O::T(vec![O::n(r.index), O::n(r.processed as u64), O::n(r.skipped as u64), O::b(r.det_storage), O::b(r.det_serial)]),
+            O::n(r.rest as u64),
+        ]),
+        Err(_) => O::T(vec![O::L(1)]),
+    };
+    let input_coq = format!("(WLowMark {} {} {}, {}, {})", cap, low, cbool(look4), start, coq_segs(&b.segs));
+    let mut tags: Vec<String> = extra_tags.iter().map(|s| s.to_string()).collect();
+    tags.push("wired".into());
+    tags.push(if framing == 0 { "storage".into() } else { "serial".into() });
+    tags.push(if look4 { "low_mark_plus4".into() } else { "low_mark_plain".into() });
+    tags.push(if in_domain { "in_domain".into() } else { "outside_domain".into() });
+    tags.push(format!("refills{}", ends.len().min(9)));
+    if b.garbage_total > 0 {
+        tags.push("garbage".into());
+    }
+    let mut j = input_json(&inp);
+    j["wiring"] = json!({"look4": look4});
+    let id = sink.next_id();
+    sink.push(Case { id, key: input_coq.clone(), input_coq, input_json: j, obs, verdict, classes: vec![], tags, nontrivial: in_domain && ends.len() >= 2 });
+}
+
+pub fn sized_msg(framing: u8, total: usize, htyp: u8, mcnt: u8, fill: u8) -> AMsg {
+    // a message of exactly `total` bytes on the wire (frame header included)
+    let mut m = plain(htyp, b"");
+    m.mcnt = mcnt;
+    let hdr = if framing == 0 { 16 } else { 4 };
+    let pl = total - hdr - m.hs();
+    m.payload = if pl == 0 { vec![] } else if pl <= 3 { vec![(1, vec![fill; pl])] } else { vec![(1, vec![mcnt, fill ^ 0x11, 0x40]), ((pl - 3) as u64, vec![fill])] };
+    assert_eq!(hdr + m.len(), total);
+    m
+}
+
+/// a stream longer than the buffer in which a near-maximum message (len field `len_big`) starts where the buffer
+/// filled by the k-th read still holds (message size + delta) bytes: delta < 0 = the message is not completely
+/// buffered unless the reader refills, delta >= 0 = it just fits.  The buffer ends are taken from a dry run of the
+/// real wiring on the filler (they depend on capacity, low mark, compaction alignment and consumed bytes).
+pub fn wired_stream(framing: u8, look4: bool, k: usize, len_big: usize, delta: i64, garbage: bool, big_htyp: u8) -> Option<Vec<Part>> {
+    let hdr = if framing == 0 { 16usize } else { 4 };
+    let unit = hdr + 60000;
+    let g = |n: usize, b: u8| Part::G(vec![(n as u64, vec![b])]);
+    let mut head: Vec<Part> = vec![Part::M(sized_msg(framing, hdr + 9, 0x20, 1, 0x61)), Part::M(sized_msg(framing, hdr + 4, 0x20, 2, 0x62))];
+    if garbage {
+        head.push(g(7, 0xaa));
+    }
+    // dry run: filler only
+    let mut base = head.clone();
+    for i in 0..(((k + 1) * CALL_SITE_CAPACITY) / unit + 2) {
+        base.push(Part::M(sized_msg(framing, unit, 0x20, (3 + i) as u8, 0x2e)));
+    }
+    let bb = build(framing, &base);
+    let (_, ends) = run_wired(0, &bb.data, CALL_SITE_CAPACITY, call_site_low_mark(look4));
+    let e_k = *ends.get(k - 1)? as i64;
+    let t_big = (hdr + len_big) as i64;
+    let g1 = if garbage { 9i64 } else { 0 };
+    let s = e_k - (t_big + delta); // where the near-maximum message starts
+    let mut parts = head;
+    let mut pos = build(framing, &parts).data.len() as i64;
+    let mut i = 0;
+    while s - g1 - (pos + unit as i64) >= (hdr + 4) as i64 {
+        parts.push(Part::M(sized_msg(framing, unit, 0x20, (3 + i) as u8, 0x2e)));
+        pos += unit as i64;
+        i += 1;
+    }
+    let a = s - g1 - pos;
+    if a < (hdr + 4) as i64 {
+        return None;
+    }
+    parts.push(Part::M(sized_msg(framing, a as usize, 0x20, 0xa0, 0x2d)));
+    if garbage {
+        parts.push(Part::G(vec![(1, b"DL\x00DLS\x00\xaa".to_vec())]));
+    }
+    parts.push(Part::M(sized_msg(framing, t_big as usize, big_htyp, 0xb1, 0x2b)));
+    parts.push(Part::M(sized_msg(framing, hdr + 5, 0x20, 0xc1, 0x63)));
+    parts.push(Part::M(sized_msg(framing, hdr + 2000, 0x31, 0xc2, 0x64)));
+    parts.push(Part::M(sized_msg(framing, hdr + 4, 0x20, 0xc3, 0x65)));
+    if garbage {
+        parts.push(g(5, 0xbb));
+    }
+    Some(parts)
+}
+
+pub fn wired_family(sink: &mut Sink, rng: &mut Rng, tier: &str) {
+    let htyps = [0x20u8, 0x3f, 0x35, 0x21];
+    let mut n = 0u32;
+    let mut emit = |sink: &mut Sink, f: u8, look4: bool, k: usize, len_big: usize, delta: i64, garbage: bool, tag: &str| {
+        let h = htyps[(n as usize) % htyps.len()];
+        n += 1;
+        if let Some(parts) = wired_stream(f, look4, k, len_big, delta, garbage, h) {
+            record_wired(sink, f, 1000 + n, parts, look4, &[tag]);
+        }
+    };
+    let edge: &[i64] = &[-1, -4, -5, -16, -17, 0, 3];
+    for f in 0..2u8 {
+        for look4 in [false, true] {
+            if tier != "search" {
+                // the maximum message around the point where it stops fitting completely into what is buffered
+                let ds: Vec<i64> = if tier == "thorough" { (-40..=40).collect() } else { edge.to_vec() };
+                for (j, d) in ds.iter().enumerate() {
+                    emit(sink, f, look4, 1, 65535, *d, j % 2 == 1, "wired_edge");
+                }
+                if tier == "thorough" {
+                    for len_big in (65535 - 40)..65535 {
+                        emit(sink, f, look4, 1, len_big, -1, len_big % 2 == 0, "wired_len_sweep");
+                        emit(sink, f, look4, 1 + (len_big % 2), len_big, -16, len_big % 2 == 1, "wired_len_sweep");
+                    }
+                }
+            }
+            let extra = if tier == "quick" { 3 } else if tier == "search" { 8 } else { 12 };
+            for _ in 0..extra {
+                let len_big = 65535 - rng.below(41) as usize;
+                let delta = rng.below(81) as i64 - 40;
+                let k = 1 + rng.below(2) as usize;
+                emit(sink, f, look4, k, len_big, delta, rng.chance(1, 2), "wired_random");
+            }
+        }
+    }
 }
 
 // ------------------------------------------------------------------ generators
@@ -648,6 +838,24 @@ pub fn corpus(sink: &mut Sink) {
     record(sink, Input::Stream { framing: 0, start: 3, parts: vec![Part::G(vec![(30, vec![0x55])])] }, &["corpus"]);
     record(sink, Input::Stream { framing: 1, start: 3, parts: vec![Part::G(vec![(30, vec![0x55])])] }, &["corpus"]);
     record(sink, Input::Raw { start: 3, segs: vec![(1, b"DLT\x01".to_vec())] }, &["corpus"]);
+    // repaired position dependence (/repo 9045554, found by C04): a storage header announcing more bytes than remain
+    // stops a fresh iterator as it stops a latched one: whole stream 1 message, fresh iterator on the suffix 0
+    {
+        let prefix: Vec<u8> = b"DLT\x01\0\0\0\0\0\0\0\0ECU1\x20\x00\x00\x04".to_vec();
+        let mut suffix: Vec<u8> = b"DLT\x01\0\0\0\0\0\0\0\0ECU1\x20\x00\x20\x04".to_vec();
+        suffix.extend_from_slice(b"DLT\x01\0\0\0\0\0\0\0\0ECU1\x20\x01\x00\x08\x09\x09\x09\x09");
+        let mut whole = prefix.clone();
+        whole.extend_from_slice(&suffix);
+        for (start, data, want) in [(0u32, whole, 1usize), (1u32, suffix, 0usize)] {
+            record(sink, Input::Raw { start, segs: vec![(1, data)] }, &["corpus", "incomplete_storage_frame"]);
+            // expectation stated here (raw inputs have no ground truth): the number of messages yielded
+            let c = sink.cases.last_mut().unwrap();
+            let got = match &c.obs { O::T(v) if v.len() >= 2 => match &v[1] { O::T(ms) => ms.len(), _ => usize::MAX }, _ => usize::MAX };
+            if got != want {
+                c.verdict = Verdict::Fail { clause: "incomplete_storage_frame_stops_fresh_and_latched_alike".into(), detail: format!("{} messages yielded, expected {}", got, want) };
+            }
+        }
+    }
     // index overflow
     record(sink, Input::Stream { framing: 0, start: u32::MAX, parts: vec![Part::M(plain(0x20, b""))] }, &["corpus"]);
     record(sink, Input::Stream { framing: 0, start: u32::MAX - 1, parts: vec![Part::M(plain(0x20, b""))] }, &["corpus"]);
@@ -773,10 +981,17 @@ pub fn flag_product(sink: &mut Sink, rng: &mut Rng, all_garbage_lengths: bool) {
 fn main() {
     let a = parse_args();
     let mut sink = Sink::new("C01", &a.out);
-    sink.shard_size = 60;
+    sink.shard_size = 24;
     if let Some(p) = &a.replay {
         let v = read_replay(p);
-        record(&mut sink, input_from_json(&v["case"]), &["replay"]);
+        let c = &v["case"];
+        if c.get("wiring").is_some() {
+            if let Input::Stream { framing, start, parts } = input_from_json(c) {
+                record_wired(&mut sink, framing, start, parts, c["wiring"]["look4"].as_bool().unwrap_or(false), &["replay"]);
+            }
+        } else {
+            record(&mut sink, input_from_json(c), &["replay"]);
+        }
         sink.finish();
         return;
     }
@@ -796,5 +1011,24 @@ fn main() {
     if a.tier == "thorough" {
         flag_product(&mut sink, &mut rng, true);
     }
+    wired_family(&mut sink, &mut rng, &a.tier);
+    // the buffered cases are expensive for the model (streams > 512 KiB): spread them evenly over the shards
+    let (wired, mut other): (Vec<Case>, Vec<Case>) = std::mem::take(&mut sink.cases).into_iter().partition(|c| c.tags.iter().any(|t| t == "wired"));
+    let step = (other.len() / wired.len().max(1)).max(1);
+    let mut merged = vec![];
+    let mut w = wired.into_iter();
+    other.reverse();
+    let mut k = 0;
+    while let Some(c) = other.pop() {
+        merged.push(c);
+        k += 1;
+        if k % step == 0 {
+            if let Some(x) = w.next() {
+                merged.push(x);
+            }
+        }
+    }
+    merged.extend(w);
+    sink.cases = merged;
     sink.finish();
 }
